@@ -83,6 +83,8 @@ func genLines(rng *common.Rng, login bool) ([]byte, []expect) {
 				tag + " CREATE box" + fmt.Sprint(rng.Pick(5)), tag + " SUBSCRIBE box1", tag + " UNSUBSCRIBE box1", tag + " CHECK",
 				tag + " EXPUNGE", tag + " CLOSE", tag + " UNSELECT", tag + " COPY 1 box1", tag + " UID MOVE 1:* box2",
 				tag + " UID EXPUNGE 1:*", tag + " SEARCH CHARSET UTF-8 CC x",
+				tag + " SEARCH CHARSET " + []string{"ISO-2022-CN", "ISO-2022-KR", "UTF-7", "UTF-32", "bogus", "US-ASCII", "KOI8-R", "CESU-8"}[rng.Pick(8)] + " TEXT x",
+				tag + " UID SEARCH CHARSET " + []string{"ISO-2022-CN-EXT", "UNICODE-1-1-UTF-7", "utf8", "ISO-8859-1", "SCSU"}[rng.Pick(5)] + " ALL",
 			}
 			line = forms[rng.Pick(len(forms))]
 			status = ""
